@@ -9,8 +9,10 @@ PROPS = {"C11": dict(
         "Zrnt.Proofs.C11.closestToSlot_eq_linear",
         "Zrnt.Proofs.C11.unknown_reported",
         "Zrnt.Proofs.C11.queries_total_quiet",
+        "Zrnt.Proofs.C11.queries_total",
+        "Zrnt.Proofs.C11.queries_refine",
+        "Zrnt.Proofs.C11.retained_queries_unchanged",
         "Zrnt.Proofs.C11.Old.queries_after_prune_false",
-        "Zrnt.Proofs.C11.getSlot_inSubtree_refine_partial",
     ],
     modes=[dict(name="fc11", stateful=True, max_shrinks=2,
                 nontrivial=_nontrivial(("chain", "closest", "canonat", "getslot", "insub", "search", "findhead", "nodes")))],
@@ -20,7 +22,7 @@ PROPS = {"C11": dict(
     rule="trees with forks, gaps and double proposals followed by sweeps of every ForkchoiceView query over known/unknown roots and slots before the anchor / after the head; counted: query lines the Go side executed",
     manifest=dict(
         level_text="Lean theorems about the code-shaped model (binary search = linear scan, subtree membership = ancestry on well-formed arrays) plus differential runs of all navigation queries against direct tree walks",
-        level_note="trusted: Lean kernel, hand model tied by correspondence, direct-walk oracle in Spec.lean",
+        level_note="trusted: Lean kernel, hand model tied by correspondence, direct-walk oracle in Spec.lean; the refinement covers admissible histories before and after pruning; Search without options and from non-first anchors is unconstrained",
         technique="Lean 4 proof over hand model + Go/Lean/oracle differential correspondence",
         design_ref="DESIGN.md 5/C11", engine="lean"),
 )}
